@@ -1,5 +1,6 @@
 // Case iteration, sharding, output for conformance harnesses.
 #pragma once
+#include <sys/time.h>
 #include "minijson.hpp"
 #include <cstdio>
 #include <cstdlib>
@@ -69,10 +70,18 @@ inline void install_altstack() {
     if (!mem) mem = (char*)malloc(1 << 16);
     stack_t ss; ss.ss_sp = mem; ss.ss_size = 1 << 16; ss.ss_flags = 0; sigaltstack(&ss, nullptr);
 }
+// per-case watchdog on the CPU time of the process (not wall time, so machine load cannot trip it): HZ_CASE_CPU_SECONDS=n arms
+// a virtual timer before every case; when it fires the case in flight is reported like a fatal signal (sig 26 = SIGVTALRM)
+static long g_case_cpu_seconds = 0;
+inline void arm_watchdog() {
+    if (g_case_cpu_seconds <= 0) return;
+    struct itimerval it; memset(&it, 0, sizeof it); it.it_value.tv_sec = g_case_cpu_seconds; setitimer(ITIMER_VIRTUAL, &it, nullptr);
+}
 inline void install_handlers() {
     std::set_terminate(on_terminate);
     install_altstack();
-    for (int sg : {SIGSEGV, SIGABRT, SIGFPE, SIGBUS, SIGILL}) { struct sigaction sa; memset(&sa, 0, sizeof sa); sa.sa_handler = on_signal; sa.sa_flags = SA_ONSTACK; sigemptyset(&sa.sa_mask); sigaction(sg, &sa, nullptr); }
+    if (const char* e = getenv("HZ_CASE_CPU_SECONDS")) g_case_cpu_seconds = atol(e);
+    for (int sg : {SIGSEGV, SIGABRT, SIGFPE, SIGBUS, SIGILL, SIGVTALRM}) { struct sigaction sa; memset(&sa, 0, sizeof sa); sa.sa_handler = on_signal; sa.sa_flags = SA_ONSTACK; sigemptyset(&sa.sa_mask); sigaction(sg, &sa, nullptr); }
 }
 
 // calls f(line_index, line) for each case of this shard
@@ -87,8 +96,10 @@ void for_each_case(const Args& a, F f) {
         if (me % a.nshards != a.shard) continue;
         if (line.empty()) continue;
         g_current_case = line;
+        arm_watchdog();
         f(me, line);
     }
+    if (g_case_cpu_seconds > 0) { struct itimerval off; memset(&off, 0, sizeof off); setitimer(ITIMER_VIRTUAL, &off, nullptr); }
     fflush(stdout);
 }
 
